@@ -633,6 +633,9 @@ func (e fsEngine) Exec(ci interface{}, st *Stats) (*Violation, interface{}, bool
 	if c.Fault == "opsweep" {
 		return execOpSweep(c, st)
 	}
+	if c.Fault == "apistate" {
+		return execAPIState(c, st)
+	}
 	if c.Fault == "apisweep" {
 		// uncaught throw of a value of this kind, and the Value/Object accessors
 		// on a returned value of this kind, under every fault
@@ -798,6 +801,111 @@ func execOpSweep(c *FSCase, st *Stats) (*Violation, interface{}, bool) {
 	}
 	st.NonTrivial++
 	st.Sig(hashStr("ops", c.Recv))
+	return nil, nil, true
+}
+
+// runtime states that make the Go-side API run hostile script code
+var apiStates = []string{
+	"Object.defineProperty(this,'tg',{get:function(){throw new Error('g')},enumerable:true,configurable:true})",
+	"this.tv={valueOf:function(){throw 1},toString:function(){throw 2}}",
+	"Object.defineProperty(Object.prototype,'ip',{get:function(){throw 3},enumerable:true,configurable:true})",
+	"Object.prototype.toString=function(){throw 4};Object.prototype.valueOf=function(){throw 5}",
+	"Array.prototype.join=function(){throw 6};Function.prototype.toString=null",
+	"String=null;Number=undefined;Object=5;Array=function(){throw 7}",
+	"Error.prototype.toString=function(){throw 8};Error.prototype.name={toString:function(){throw 9}}",
+	"delete this.undefined;this.NaN=1;delete this.Object;delete this.Function",
+}
+
+func execAPIState(c *FSCase, st *Stats) (*Violation, interface{}, bool) {
+	state := apiStates[c.From]
+	r := newFSRuntime()
+	bad := ""
+	try := func(name string, f func()) {
+		if bad != "" {
+			return
+		}
+		st.Runs++
+		st.Fault("api_on_hostile_state")
+		defer func() {
+			if x := recover(); x != nil {
+				bad = fmt.Sprintf("%s panicked with %T: %v", name, x, clip(fmt.Sprint(x)))
+			}
+		}()
+		f()
+	}
+	vm := r.vm
+	try("Run(state)", func() { vm.Run(state) })
+	vm.Set("hctx", func(call otto.FunctionCall) otto.Value {
+		try("Context inside a host function", func() { call.Otto.Context(); call.Otto.ContextLimit(1); call.Otto.ContextSkip(3, true) })
+		try("CallerLocation", func() { _ = call.CallerLocation() })
+		return otto.UndefinedValue()
+	})
+	try("Context", func() { vm.Context(); vm.ContextLimit(2) })
+	try("Get", func() {
+		for _, n := range []string{"tg", "tv", "ip", "Object", "nosuch"} {
+			if v, err := vm.Get(n); err == nil {
+				_ = v.String()
+				v.ToInteger()
+				v.Export()
+				v.IsNaN()
+			}
+		}
+	})
+	try("Run with host", func() {
+		vm.Run("function f(a){var loc={get q(){throw 2}};with({get w(){throw 3}}){hctx()}}f(1)")
+	})
+	try("Run error rendering", func() {
+		if _, err := vm.Run("throw new Error('x')"); err != nil {
+			_ = err.Error()
+			if oe, ok := err.(*otto.Error); ok {
+				_ = oe.String()
+			}
+		}
+		if _, err := vm.Run("null.x"); err != nil {
+			_ = err.Error()
+		}
+	})
+	try("Set/ToValue", func() {
+		vm.Set("zz", map[string]interface{}{"a": []int{1, 2}})
+		vm.Set("zf", func(a int) int { return a })
+		vm.ToValue([]string{"x"})
+		vm.Run("zz.a[0]+zf(1)")
+	})
+	try("Call", func() { vm.Call("f", nil, 1); vm.Call("new f", nil); vm.Call("String", nil, 1); vm.Call("tv.valueOf", nil) })
+	try("Object", func() {
+		if o, err := vm.Object("({a:1,get b(){throw 1}})"); err == nil && o != nil {
+			o.Keys()
+			o.Get("b")
+			o.Set("b", 2)
+			o.MarshalJSON()
+			o.Value().Export()
+		}
+	})
+	try("Copy", func() {
+		cp := vm.Copy()
+		cp.Run("1+1")
+		cp.Context()
+	})
+	try("Compile+Run", func() {
+		if s, err := vm.Compile("", "tg"); err == nil {
+			vm.Run(s)
+		}
+	})
+	if bad != "" {
+		x := viol("C02", "go_panic_escaped", "after `%s`: %s", state, bad)
+		x.Key = "apistate " + strconv.Itoa(c.From)
+		if kf := isKnown(x); kf != nil {
+			st.Known[kf.Property+" "+kf.Key]++
+			return nil, nil, true
+		}
+		if collectMode {
+			st.Probes["COLLECT "+x.Class+" | "+x.Key+" | "+clip(x.Detail)]++
+			return nil, nil, true
+		}
+		return x, c, true
+	}
+	st.NonTrivial++
+	st.Sig(hashStr("apistate", state))
 	return nil, nil, true
 }
 
@@ -990,6 +1098,9 @@ func (fsEngine) Enumerate(tier string) []interface{} {
 	}
 	for i := range histOps {
 		out = append(out, &FSCase{Engine: "faultsweep", Fault: "history", From: i})
+	}
+	for i := range apiStates {
+		out = append(out, &FSCase{Engine: "faultsweep", Fault: "apistate", From: i})
 	}
 	for i := range strTemplates {
 		out = append(out, &FSCase{Engine: "faultsweep", Fault: "strsweep", From: i, Pairs: tier == "thorough"})
